@@ -107,6 +107,26 @@ CLAIMED['C15'] = dict(
    note='Trusted: clang AST, sa/guards.py (fact language). UB classes not decided: out-of-range floating to integer conversion, signed overflow outside the decoders (C05), lifetime of caller-held references, data races. Five genuine defects repaired (two unchecked optional dereferences, off-by-one and missing slot index checks, division by a truncated rate); two more repaired under C09 (end() dereference in the chain walkers) and C03 (cue buffer overflow).',
    ref='DESIGN.md 4 C15')
 
+
+# rules added after the seeded-change rounds (DESIGN.md 10.4); appended to the texts above
+ADDED = {
+ 'C01': 'R2 also requires sibling readers of one table to apply the same row filter; R5 that each blob column is encoded and decoded by one codec class in both generations; R6 that the util helpers lifting a conversion over std::optional branch only on engagement.',
+ 'C02': 'L4 also evaluates the benign no-progress scenario of inflate (Z_BUF_ERROR with further input slices to come must continue). L5: the layout table names the column of each blob; every statement that stores an encoded value in a performance-data column takes it from that codec and every decoding read uses it (128 statement instances).',
+ 'C05': 'D5 also evaluates the benign no-progress scenario of inflate (Z_BUF_ERROR with further input slices to come must continue, not throw).',
+ 'C06': 'G2 also requires sibling readers to apply the same row filter; G4: optional-lifting util helpers branch only on engagement.',
+ 'C07': 'T1 also requires the per-version copies of the recursive views to agree; T8: every 1.x operation that adds or moves a crate writes the parent list and the full closure the cycle guard reads.',
+ 'C08': 'K4 also requires the per-version copies of the chain-maintaining triggers to agree.',
+ 'C09': 'P2 also applies sibling agreement of the per-version trigger copies and identifier-domain typing (the splice statements match entity ids with entity ids and list ids with list ids); P3 also decides that the walk direction matches the insertion side.',
+ 'C10': 'N5 judges the Information INSERTs of the whole creation trace of each creator (inherited bodies and helpers bind the members of the creating class).',
+ 'C11': 'W1 also requires every call of the subtree path rewriter to hand down the path its caller just stored; W2 that the file-name / extension helpers locate their separator from the end; W7: identifier-domain typing of every trigger body, view (with CTEs) and library statement of every supported version (spec/domains.json, cross-checked with the declared foreign keys; 492 instances); W8: the per-version copies of the chain triggers and views agree.',
+ 'C12': 'X2 also requires exactly one Information row per attached database file (unqualified table names resolved in attach order); X3 that every function receiving an engine_schema hands its own parameter on to the next (15 hand-over calls), never a default argument.',
+ 'C13': 'Y3 evaluates 12 presence combinations (the Database2 directory without m.db is a variable of its own) with single-return path helpers inlined.',
+ 'C15': 'U9 discharges the acyclicity it relies on itself: the cycle guards of both set_parent implementations and every 1.x writer of the closure table the guard reads.',
+ 'C18': 'B8: the util helpers that carry nullable columns to optional row fields and back (optional<A> -> optional<B>) yield a value exactly when given one.',
+}
+for _k, _v in ADDED.items():
+    CLAIMED[_k]['text'] += ' Added after the seeded-change rounds: ' + _v
+
 NOT_APPLICABLE = {
  'C19': 'numerical result of integer/floating arithmetic over all inputs (ceiling division, quantisation, minimality, monotonicity): no structural clause beyond the division guard, which C15-U6 covers; a sound decision needs an arithmetic solver or proof (different family)',
  'C20': 'floating-point numerical behaviour of beat-grid extrapolation (bracketing, tempo preservation, idempotence up to rounding); only the iterator arithmetic is shape-visible and is covered by C15-U3',
